@@ -530,11 +530,29 @@ def _inline_site(stmt, call, h, kind):
             return None
         if any(isinstance(n, ast.Return) for x in body for n in ast.walk(x)):
             return None
-    wrapper = ast.Module(body=body, type_ignores=[])
-    wrapper = _subst_params(wrapper, mapping)
     # the helper's own locals get unique names at every inlining (no capture of the caller's names)
     global _INLINE_SEQ
     _INLINE_SEQ += 1
+    # evaluation of the arguments: an argument is evaluated exactly once, before the body, in the order of the call.  An argument
+    # expression is substituted textually only where that cannot be observed (a name / constant, or a pure expression read once);
+    # otherwise it is bound to a fresh local first
+    pre = []
+    inside_call = {id(y) for y in ast.walk(call)}
+    for c_ in ast.walk(stmt):
+        if isinstance(c_, ast.Call) and id(c_) not in inside_call and not _is_pure(c_) and not any(call is y for y in ast.walk(c_)):
+            return None      # another effectful call of the statement would be overtaken by the inlined body
+    order = [p_ for p_, _ in zip(params, call.args)] + [k.arg for k in call.keywords]
+    for p_ in order + [q_ for q_ in params if q_ not in order]:
+        a_ = mapping[p_]
+        uses = sum(1 for x in body for n in ast.walk(x) if isinstance(n, ast.Name) and n.id == p_ and isinstance(n.ctx, ast.Load))
+        simple = isinstance(a_, (ast.Name, ast.Constant)) or (isinstance(a_, (ast.Attribute, ast.Subscript)) and _is_pure(a_, allow_calls=False))
+        if simple or (uses == 1 and _is_pure(a_)) or (uses == 0 and _is_pure(a_)):
+            continue
+        tname = '%s_inl%d' % (p_, _INLINE_SEQ)
+        pre.append(ast.Assign(targets=[ast.Name(id=tname, ctx=ast.Store())], value=copy.deepcopy(a_)))
+        mapping[p_] = ast.Name(id=tname, ctx=ast.Load())
+    wrapper = ast.Module(body=body, type_ignores=[])
+    wrapper = _subst_params(wrapper, mapping)
     own = set()
     comp_bound = set()
     for n in ast.walk(wrapper):
@@ -595,6 +613,7 @@ def _inline_site(stmt, call, h, kind):
     new = conv(wrapper.body)
     if new is None:
         return None
+    new = pre + new
     for s in new:
         fix(s, stmt)
         for n in ast.walk(s):
